@@ -50,7 +50,7 @@ def run_one(sid, tier, extra_props):
         res["checks"] = {}
         for pid in [meta["property"]] + [p for p in meta.get("also", []) + extra_props if p != meta["property"]]:
             t0 = time.time()
-            c = sh([os.path.join(HERE, "check"), pid, "--tier", tier, "--no-evidence", "--procs", "4"], cwd=HERE, env={**os.environ, "VERIF_REPO": dest})
+            c = sh([os.path.join(HERE, "check"), pid, "--tier", tier, "--no-evidence"], cwd=HERE, env={**os.environ, "VERIF_REPO": dest})
             caught = c.returncode == 1 and "VIOLATION property=" in c.stdout
             line = [l for l in c.stdout.splitlines() if l.startswith("  ")][:1]
             res["checks"][pid] = {"caught": caught, "rc": c.returncode, "seconds": round(time.time() - t0, 1), "tier": tier,
